@@ -195,7 +195,7 @@ def rel_work(rel, tier, rng, viols, keys, counters):
                     add(viols, 'C09|us.tin.guess_type|differs', 'guess_type(%r) = %r, accepting sub-types %r' % (x, g[1:2], want), {'rel': rel, 'wrapper': 'us.tin.guess_type', 'x': x})
     elif rel == 'es.nif':
         for s in ('es.dni', 'es.nie', 'es.cif'):
-            nums = C.corpus(s, limit=n, rng=rng) + C.synth_valid(s, n, rng)
+            nums = C.corpus(s, limit=n * 8, rng=rng) + C.synth_valid(s, n * 12, rng) + C.synth_alphabet(s, rng, k=3, pool='', extra_random=6)
             for v in nums:
                 r = val(s, v)
                 if r[0] != 'ok':
